@@ -7,7 +7,8 @@ From GI Require Import Lib.Bytes Gen.TxtarWriteConsts Txtar.Txtar
   TxtarWrite.Path TxtarWrite.TxtarWrite TxtarWrite.PathFacts TxtarWrite.WriteFacts
   TxtarWrite.FuelFacts TxtarWrite.NulFacts TxtarWrite.RelFacts TxtarWrite.RelWrite TxtarWrite.GoodWrite
   TxtarWrite.SavedirFacts TxtarWrite.NameFacts TxtarWrite.SortFacts TxtarWrite.WalkFacts
-  TxtarWrite.Symlink TxtarWrite.SymlinkFacts TxtarWrite.SymlinkPlain.
+  TxtarWrite.Symlink TxtarWrite.SymlinkFacts TxtarWrite.SymlinkPlain
+  TxtarWrite.Fd TxtarWrite.FdFacts TxtarWrite.Cli TxtarWrite.CliFacts.
 Import ListNotations.
 
 (* A cleaned name that the guard of Write lets through (not absolute, not "..", no
@@ -216,3 +217,112 @@ Theorem C15_symlink_model_agrees : forall cwd fs sfs dir a,
                sim (fst (write cwd fs dir a)) sfs'.
 Proof. exact symlink_model_agrees_write. Qed.
 Print Assumptions C15_symlink_model_agrees.
+
+(* DESCRIPTORS AND FAILING SYSTEM CALLS.  [write_f world] is the loop of Write with the
+   events open / write / close on the files it creates, under a world that may make the
+   system calls of any iteration fail (MkdirAll, OpenFile, a short write, Close), for the
+   loop-body shape read from the source (is Close deferred, does it precede the error check
+   of the write, is its error returned).  Without faults it is [write]: every theorem above
+   is about the same function. *)
+Theorem C15_write_f_no_faults : forall cwd fs dir a,
+  fst (write_f no_faults cwd fs dir a) = (fst (write cwd fs dir a), FR (snd (write cwd fs dir a))).
+Proof. exact write_f_no_faults. Qed.
+Print Assumptions C15_write_f_no_faults.
+
+(* At every moment of a call of Write at most one descriptor is open (every prefix of the
+   event trace), and none when it returns - for every archive, however many entries, on
+   every path: success, refusal, and whatever system call fails.  Extraction therefore never
+   needs more than O(1) descriptors. *)
+Theorem C15_write_fd_bounded : forall world cwd fs dir a fs' r tr,
+  write_f world cwd fs dir a = (fs', r, tr) ->
+  open_after 0 tr = Some 0 /\
+  forall t1 t2, tr = t1 ++ t2 -> exists n, open_after 0 t1 = Some n /\ n <= 1.
+Proof. exact write_fd_bounded. Qed.
+Print Assumptions C15_write_fd_bounded.
+
+(* What the shape constants protect against: were Close deferred (`defer out.Close()` in
+   the loop), a successful Write would hold one descriptor per entry, all of them open
+   together just before it returns. *)
+Theorem C15_deferred_close_holds_all : forall sh g fl cwd dir files fs fs' tr,
+  sh_defer sh = true ->
+  write_gen_f sh g fl cwd fs dir files no_faults 0 [] = (fs', FR WOk, tr) ->
+  max_open 0 tr = length files.
+Proof. exact deferred_close_holds_all. Qed.
+Print Assumptions C15_deferred_close_holds_all.
+
+(* Success under any world is the fault-free success: all entries were written. *)
+Theorem C15_write_f_ok : forall world cwd fs dir a fs' tr,
+  write_f world cwd fs dir a = (fs', FR WOk, tr) -> write cwd fs dir a = (fs', WOk).
+Proof. exact write_f_ok. Qed.
+Print Assumptions C15_write_f_ok.
+
+(* What an error leaves on disk: the entries before the failing one (number k) were written
+   exactly as a successful Write of those k entries writes them; beyond that there are only
+   new directories and, possibly, the failing entry's file holding a prefix of its data. *)
+Theorem C15_write_error_prefix : forall world cwd fs dir a fs' r tr,
+  write_f world cwd fs dir a = (fs', r, tr) -> r <> FR WOk ->
+  exists k fsk, k < length (files a) /\
+    write_gen the_guard the_flags cwd fs dir (firstn k (files a)) = (fsk, WOk) /\
+    ext (leftover cwd dir (nth k (files a) ([], []))) fsk fs'.
+Proof. exact write_error_prefix. Qed.
+Print Assumptions C15_write_error_prefix.
+
+(* Containment and "never overwrites" hold on every failure path too. *)
+Theorem C15_write_f_contained : forall world cwd fs dir a fs' r tr,
+  is_abs dir = true -> write_f world cwd fs dir a = (fs', r, tr) ->
+  forall p, get fs' p <> get fs p ->
+    get fs p = None /\
+    (within (resolve cwd dir) p \/ (get fs' p = Some Dir /\ within p (resolve cwd dir))).
+Proof. exact write_f_contained. Qed.
+Print Assumptions C15_write_f_contained.
+
+Theorem C15_write_f_never_overwrites : forall world cwd fs dir a fs' r tr,
+  write_f world cwd fs dir a = (fs', r, tr) -> forall p x, get fs p = Some x -> get fs' p = Some x.
+Proof. exact write_f_never_overwrites. Qed.
+Print Assumptions C15_write_f_never_overwrites.
+
+(* THE COMMAND LINES.  txtar-c [flags] dir: any mix of the two boolean flags, each spelled
+   -x, --x, -x=true or -x=false (package flag's parseOne), the last setting of each counting. *)
+Theorem C15_c_cmdline_flags : forall cs d,
+  flaglike d = false ->
+  c_cmdline (map cflag_arg cs ++ [d]) = CRun (cflags_apply cs {| f_quote := false; f_all := false |}) d.
+Proof. exact c_cmdline_flags. Qed.
+Print Assumptions C15_c_cmdline_flags.
+
+(* txtar-x: no argument = standard input into the default directory; -C d / --C d / -C=d
+   with a file argument = that file into d. *)
+Theorem C15_x_cmdline_forms : forall d f,
+  flaglike f = false ->
+  x_cmdline [] = XRun extract_dir_default XStdin /\
+  x_cmdline [DASH :: extract_dir_flag; d] = XRun d XStdin /\
+  x_cmdline [DASH :: extract_dir_flag; d; f] = XRun d (XFile f) /\
+  x_cmdline [DASH :: DASH :: extract_dir_flag; d; f] = XRun d (XFile f) /\
+  x_cmdline [DASH :: extract_dir_flag ++ EQS :: d; f] = XRun d (XFile f) /\
+  x_cmdline [f] = XRun extract_dir_default (XFile f).
+Proof. exact x_cmdline_forms. Qed.
+Print Assumptions C15_x_cmdline_forms.
+
+(* The round trip through the two commands, for every tree of files with txtar-representable
+   names - of ANY size - whatever the spelling of the flags, through either input route of
+   txtar-x: the file named by the argument (holding what txtar-c printed) or standard input
+   (all of it is read: extract_stdin_limit = None in the current source).  Conclusion as in
+   C15_savedir_extract. *)
+Theorem C15_cli_roundtrip : forall fl t cwd fs dir cargs d0 xargs inp stdin,
+  Forall real cwd -> Forall nul_free cwd -> has_nul dir = false -> tree_ok t ->
+  dir_exists fs (resolve cwd dir) ->
+  (forall q, beneath (resolve cwd dir) q -> get fs q = None) ->
+  c_cmdline cargs = CRun fl d0 ->
+  x_cmdline xargs = XRun dir inp ->
+  (inp = XStdin /\ Some stdin = txtar_c_main cargs t) \/
+  (exists f out, inp = XFile f /\ Some out = txtar_c_main cargs t /\ os_read_file cwd fs f = inr out) ->
+  exists fs',
+    txtar_x_main cwd fs xargs stdin = (fs', XR WOk) /\
+    (forall p d cl n s, In (p, d) t -> savedir_entry fl (p, d) = Some (cl, (n, s)) ->
+       get fs' (resolve cwd dir ++ p) = Some (File s) /\
+       restored (comment (parse (txtar_c fl t))) n s = Some (fix_nl d)) /\
+    (forall q x, beneath (resolve cwd dir) q -> get fs' q = Some x ->
+       exists p d e, In (p, d) t /\ savedir_entry fl (p, d) = Some e /\
+         ((q = resolve cwd dir ++ p /\ exists s, x = File s) \/
+          (x = Dir /\ proper q (resolve cwd dir ++ p)))).
+Proof. exact cli_roundtrip. Qed.
+Print Assumptions C15_cli_roundtrip.
